@@ -337,6 +337,14 @@ def generate(model: Model):
         except Exception:  # noqa: BLE001
             pass
     try:
+        mod, tree = _fresh("io.csv")
+        for cdef in (x for x in tree.body if isinstance(x, ast.ClassDef) and x.name == "ReadCSV"):
+            for fn in (x for x in cdef.body if isinstance(x, ast.FunctionDef) and x.name == "_meta"):
+                for st in (x for x in fn.body if isinstance(x, ast.If)):
+                    yield "mutant", "revert:absorbing-source-keeps-reader-columns", "R07g", mod.rel, _drop_stmt(mod, st)
+    except Exception:  # noqa: BLE001
+        pass
+    try:
         mod, tree = _fresh("io.parquet")
         for cdef in (x for x in tree.body if isinstance(x, ast.ClassDef) and x.name == "ReadParquet"):
             for fn in (x for x in cdef.body if isinstance(x, ast.FunctionDef) and x.name == "_filter_passthrough_available"):
